@@ -132,18 +132,73 @@ theorem defaultClient_spec (name : String) (clients : List String) (nf : BuildEr
       · rw [if_pos e3] at h; cases h; rfl
       · rw [if_neg e3] at h; cases h
 
-/-- `Router.match` over the built routes followed by the default route is `specRoutes` -/
-theorem matchRoutes_spec (p : Params) (env : Env) (cfg : Config) (q : Req) (dflt : Route)
-    (hnd : env.servers.Nodup) (hq : q.WF env)
-    (hdc : dflt.criteria = []) (hd : dflt.clientFor q.net = specDefault env cfg q.net) :
+/-- what the specification says `Router.match` returns: the deciding route config, the default, or an error -/
+inductive SpecPick where
+  | route (rc : RouteConfig)
+  | dflt
+  | error (x : Err)
+
+def specPick (p : Params) (env : Env) (q : Req) : List RouteConfig → SpecPick
+  | [] => .dflt
+  | rc :: rest =>
+    match specRoute p env rc q with
+    | .t => .route rc
+    | .f => specPick p env q rest
+    | .e x => .error x
+
+theorem specRoutes_pick (p : Params) (env : Env) (cfg : Config) (q : Req) : ∀ rcs,
+    specRoutes p env cfg q rcs =
+      (match specPick p env q rcs with
+       | .route rc => specClient rc.client
+       | .dflt => specDefault env cfg q.net
+       | .error x => .error x) := by
+  intro rcs
+  induction rcs with
+  | nil => rfl
+  | cons rc rcs ih =>
+    simp only [specRoutes, specPick]
+    cases specRoute p env rc q with
+    | t => rfl
+    | f => exact ih
+    | e x => rfl
+
+theorem specRouteNames_pick (p : Params) (env : Env) (q : Req) : ∀ rcs,
+    specRouteNames p env q rcs =
+      (match specPick p env q rcs with
+       | .route rc => some rc.name
+       | .dflt => some "default"
+       | .error _ => none) := by
+  intro rcs
+  induction rcs with
+  | nil => rfl
+  | cons rc rcs ih =>
+    simp only [specRouteNames, specPick]
+    cases specRoute p env rc q with
+    | t => rfl
+    | f => exact ih
+    | e x => rfl
+
+theorem build_name (env : Env) (rc : RouteConfig) (route : Route) (h : build env rc = .ok route) :
+    route.name = rc.name := by
+  obtain ⟨_, _, _, _, _, _, _, _, _, _, _, _, _, _, _, _, rfl⟩ := build_ok env rc route h
+  rfl
+
+/-- `Router.match` over the built routes followed by the default route picks what the specification picks:
+the route built from the deciding route config (same name, client as documented), the default route, or the error -/
+theorem matchRoute_spec (p : Params) (env : Env) (q : Req) (dflt : Route)
+    (hnd : env.servers.Nodup) (hq : q.WF env) (hdc : dflt.criteria = []) :
     ∀ (rcs : List RouteConfig) (rs : List Route), buildRoutes env rcs = .ok rs →
-      matchRoutes p q (rs ++ [dflt]) = specRoutes p env cfg q rcs := by
+      (match specPick p env q rcs with
+       | .route rc => ∃ rt, matchRoute p q (rs ++ [dflt]) = .route rt ∧ rt.name = rc.name ∧
+                          rt.clientFor q.net = specClient rc.client
+       | .dflt => matchRoute p q (rs ++ [dflt]) = .route dflt
+       | .error x => matchRoute p q (rs ++ [dflt]) = .error x) := by
   intro rcs
   induction rcs with
   | nil =>
     intro rs h
     simp only [buildRoutes] at h; cases h
-    simp [matchRoutes, hdc, meetAll, specRoutes, hd]
+    simp [specPick, matchRoute, hdc, meetAll]
   | cons rc rcs ih =>
     intro rs h
     simp only [buildRoutes] at h
@@ -154,15 +209,15 @@ theorem matchRoutes_spec (p : Params) (env : Env) (cfg : Config) (q : Req) (dflt
       · cases h
       · rename_i rs' hrs
         cases h
-        simp only [List.cons_append, matchRoutes, specRoutes, route_sound p env rc r q hnd hq hr]
+        simp only [List.cons_append, matchRoute, specPick, route_sound p env rc r q hnd hq hr]
         cases hv : specRoute p env rc q with
-        | t => simp only [R.ofV]; exact clientFor_spec p env rc r q hr hv
+        | t => simp only [R.ofV]; exact ⟨r, rfl, build_name env rc r hr, clientFor_spec p env rc r q hr hv⟩
         | f => simp only [R.ofV]; exact ih rs' hrs
         | e x => simp only [R.ofV]
 
-theorem getClient_spec (p : Params) (env : Env) (cfg : Config) (r : Router) (q : Req)
+theorem router_spec (p : Params) (env : Env) (cfg : Config) (r : Router) (q : Req)
     (hnd : env.servers.Nodup) (hq : q.WF env) (h : buildRouter env cfg = .ok r) :
-    getClient p r q = specMatch p env cfg q := by
+    getClient p r q = specMatch p env cfg q ∧ matchedRoute p r q = specMatchedRoute p env cfg q := by
   unfold buildRouter at h
   split at h
   · cases h
@@ -174,12 +229,31 @@ theorem getClient_spec (p : Params) (env : Env) (cfg : Config) (r : Router) (q :
       · cases h
       · rename_i rs hrs
         cases h
-        unfold getClient specMatch
-        apply matchRoutes_spec p env cfg q _ hnd hq rfl _ cfg.routes rs hrs
-        rw [specDefault_eq]
-        cases q.net with
-        | tcp => rw [clientFor_tcp]; exact defaultClient_spec _ _ _ _ hdt
-        | udp => rw [clientFor_udp]; exact defaultClient_spec _ _ _ _ hdu
+        have key := matchRoute_spec p env q
+          { name := "default", criteria := [], tcpClient := dt, udpClient := du } hnd hq rfl cfg.routes rs hrs
+        have hdef : Route.clientFor { name := "default", criteria := [], tcpClient := dt, udpClient := du } q.net =
+            specDefault env cfg q.net := by
+          rw [specDefault_eq]
+          cases q.net with
+          | tcp => rw [clientFor_tcp]; exact defaultClient_spec _ _ _ _ hdt
+          | udp => rw [clientFor_udp]; exact defaultClient_spec _ _ _ _ hdu
+        unfold getClient matchedRoute specMatch specMatchedRoute
+        rw [specRoutes_pick, specRouteNames_pick]
+        cases hp : specPick p env q cfg.routes with
+        | route rc =>
+          rw [hp] at key
+          obtain ⟨rt, hm, hn, hc⟩ := key
+          simp only [hm, hn, hc, and_self]
+        | dflt =>
+          rw [hp] at key
+          simp only [key, hdef, and_self]
+        | error x =>
+          rw [hp] at key
+          simp only [key, and_self]
+
+theorem getClient_spec (p : Params) (env : Env) (cfg : Config) (r : Router) (q : Req)
+    (hnd : env.servers.Nodup) (hq : q.WF env) (h : buildRouter env cfg = .ok r) :
+    getClient p r q = specMatch p env cfg q := (router_spec p env cfg r q hnd hq h).1
 
 theorem defaultOf_ne_panic (name : String) (clients : List String) : defaultOf name clients ≠ .panic := by
   unfold defaultOf
